@@ -236,7 +236,7 @@ ADDENDA = {
     "C12": "Also decides: (R12.5) format()/payload operations on user objects run under an exception guard; (R12.6) payload comparisons go through safe_equals or an except clause.",
     "C13": "Also decides: (R13.3) coroutine wrapping of async functions is conditioned on async-ness only in both signature builders; (R13.4) the runtime route never reads typing's shared ForwardRef evaluation cache.",
     "C14": "Also decides: hand-written hashes canonicalise unordered fields; identity returns of substitute_typevars are guarded against type variables.",
-    "C15": "Also decides: (R15.6) in solve() a bound leaves its accumulator unchanged only when the accumulator already implies it (path enumeration with polarity-normalised guards).",
+    "C15": "Also decides, by model extraction: (R15.7) solve() and remove_redundant_solutions() are interpreted from their AST over a five-element lattice of types (assignability = inclusion, unite_values = union) for every set of up to 4 (quick) / 5 (thorough) lower/upper/constraint bounds in every order: a returned type satisfies every bound and the accepted-vs-diagnosed verdict is order independent.",
     "C16": "Also decides: (R16.f) whole-assignment deletions only for a single non-pattern target; (R16.g) an ignore comment on another line than the error suppresses only by whole-line equality, offsets 0 and -1 only.",
     "C17": "Also decides: (R17.4) truth table of argument consumption for `*` width / `*` precision / %%; (R17.5) a .format field name is an index exactly under isdecimal(), never by trial int().",
     "C19": "Also decides: (R19.3) constant-index range test and scan positions, folded over a finite grid; (R19.4) the literal result comes from performing the operation for this call (a call of the callee dominates every return of a helper).",
